@@ -13,7 +13,10 @@ var c10ops = []string{"Abs", "Relu", "PRelu", "Sigmoid", "Tanh", "Sin", "Cos", "
 // float32 special values and boundary arguments
 func specials32() []float32 {
 	inf := float32(math.Inf(1))
+	// NaN in four bit patterns: Go's math.NaN, the negative quiet NaN the hardware produces for
+	// Inf-Inf and 0*Inf, a signalling NaN, a NaN with payload
 	return []float32{0, float32(math.Copysign(0, -1)), 1, -1, inf, -inf, float32(math.NaN()),
+		math.Float32frombits(0xFFC00000), math.Float32frombits(0x7F800001), math.Float32frombits(0xFFFFFFFF),
 		math.SmallestNonzeroFloat32, -math.SmallestNonzeroFloat32, 1e-40, -1e-40, 1.1754944e-38,
 		math.MaxFloat32, -math.MaxFloat32, 0.99999994, 1.0000001, -0.99999994, -1.0000001,
 		88.5, 89, -88.5, -104, 104, 710, -746, 20, -20, 0.5, -0.5, 1.5707964, 3.1415927, 1e10, -3e20, 1e-5, -1e-5, 2, -2}
@@ -21,6 +24,7 @@ func specials32() []float32 {
 func specials64() []float64 {
 	inf := math.Inf(1)
 	return []float64{0, math.Copysign(0, -1), 1, -1, inf, -inf, math.NaN(),
+		math.Float64frombits(0xFFF8000000000000), math.Float64frombits(0x7FF0000000000001), math.Float64frombits(0xFFFFFFFFFFFFFFFF),
 		math.SmallestNonzeroFloat64, -math.SmallestNonzeroFloat64, 1e-310, 2.2250738585072014e-308,
 		math.MaxFloat64, -math.MaxFloat64, 0.9999999999999999, 1.0000000000000002, -0.9999999999999999, -1.0000000000000002,
 		709.7, 710, -709.7, -745.2, -746, 745, 20, -20, 0.5, -0.5, math.Pi / 2, math.Pi, 1e10, -3e20, 1e300, 1e-5, -1e-5, 2, -2, 88.5, -104}
